@@ -193,10 +193,11 @@ class CPDAG(pywhy_nx.MixedEdgeGraph, AncestralMixin, ConservativeMixin):
         return super().add_edge(u_of_edge, v_of_edge, edge_type, **attr)
 
     def add_edges_from(self, ebunch_to_add, edge_type, **attr):
-        from pywhy_graphs.algorithms.generic import _check_adding_cpdag_edge
+        from pywhy_graphs.algorithms.generic import _check_adding_cpdag_edge, _check_adding_edges
 
-        for u_of_edge, v_of_edge in ebunch_to_add:
-            _check_adding_cpdag_edge(
-                self, u_of_edge=u_of_edge, v_of_edge=v_of_edge, edge_type=edge_type
-            )
+        # every member is checked against the graph and the members before it; nothing is
+        # inserted unless all of them pass
+        ebunch_to_add = _check_adding_edges(
+            self, ebunch_to_add, edge_type, _check_adding_cpdag_edge
+        )
         return super().add_edges_from(ebunch_to_add, edge_type, **attr)
